@@ -2,7 +2,7 @@
 """prints the markdown table of seeded changes (from seeded/*/meta.json) used in DESIGN.md section 12"""
 import json, os
 ROOT = "/verif/seeded"
-print("| seeded change | breaks | what it is | caught by (quick tier unless noted) |")
+print("| seeded change | what it is | caught by (quick tier) | what the check needed |")
 print("|---|---|---|---|")
 for n in sorted(os.listdir(ROOT)):
     mp = os.path.join(ROOT, n, "meta.json")
@@ -11,12 +11,15 @@ for n in sorted(os.listdir(ROOT)):
     m = json.load(open(mp))
     cr = m.get("check_results", {})
     hit = [k for k, r in cr.items() if r.get("exit") == 1 and r.get("violations", 0) > 0]
-    miss = [k for k, r in cr.items() if not (r.get("exit") == 1 and r.get("violations", 0) > 0)]
     first = ""
     for k in hit:
         first = cr[k].get("first", "").split("::")[0].split(" {")[0].strip()
-        break
-    caught = (", ".join(hit) + (f" (obligation `{first}`)" if first else "")) if hit else "**not caught** (" + m.get("why_missed", "see section 12 notes") + ")"
+        if first:
+            break
+    caught = (", ".join(sorted(set(h.split(":")[0] for h in hit))) + (f": `{first}`" if first else "")) if hit else "**not caught**"
     summ = m.get("summary", "").replace("|", "/")
-    summ = summ.split(" - ", 1)[-1].split(" — ", 1)[-1].split(" -- ", 1)[-1]
-    print(f"| {n} | {m.get('property')} | {summ[:110]} | {caught} |")
+    for sep in (" - ", " — ", " -- "):
+        if sep in summ:
+            summ = summ.split(sep, 1)[1]
+            break
+    print(f"| {n} | {summ[:120]} | {caught} | {m.get('strengthening_needed', '')} |")
